@@ -112,6 +112,12 @@ func (k Keeper) UpgradeClient(ctx sdk.Context, chainName string, upgradedClientS
 		return errorsmod.Wrapf(types.ErrInvalidClientType, "cannot update client %s, client-type not match", chainName)
 	}
 
+	// initialize the client-specific metadata of the upgraded state, as CreateClient does
+	// e.g. ProcessedTime in Tendermint clients, header index in ETH clients
+	if err := upgradedClientState.Initialize(ctx, k.cdc, k.ClientStore(ctx, chainName), upgradedConsState); err != nil {
+		return err
+	}
+
 	k.SetClientState(ctx, chainName, upgradedClientState)
 	k.SetClientConsensusState(ctx, chainName, upgradedClientState.GetLatestHeight(), upgradedConsState)
 
